@@ -57,6 +57,10 @@ impl<'a> phy::TxToken for SimTx<'a> {
     where
         F: FnOnce(&mut [u8]) -> R,
     {
+        if self.tx.len() >= 20_000 {
+            // a single poll never legitimately emits this many frames: smoltcp is looping
+            panic!("HANG: Interface::poll keeps transmitting without returning (>20000 frames handed to the device since the harness last looked)");
+        }
         let mut buf = vec![0u8; len];
         let r = f(&mut buf);
         self.tx.push((self.ts, buf));
